@@ -321,6 +321,10 @@ impl Model for M {
         out.into_bytes()
     }
 
+    fn probe_once_per_state(&self) -> bool {
+        true
+    }
+
     fn probe(&self, mut s: Sys, _hist: &[Ev]) -> Result<u64, Fail> {
         if !s.dialled[0] && !s.dialled[1] {
             return Ok(0);
@@ -374,10 +378,10 @@ pub fn run(ctx: &Ctx) {
             ctx,
             &fam,
             &m,
-            ExploreOpts { max_depth: depth, wall_cap: Duration::from_secs(ctx.tier.pick(45, 3000)), state_cap: ctx.tier.pick(300_000, 6_000_000), dedup: true },
+            ExploreOpts { max_depth: depth, wall_cap: Duration::from_secs(ctx.tier.pick(400, 3000)), state_cap: ctx.tier.pick(300_000, 6_000_000), dedup: true },
         );
         if i == 0 {
-            explore::audit_dedup(ctx, &fam, &m, &res, 3, Duration::from_secs(ctx.tier.pick(30, 600)));
+            explore::audit_dedup(ctx, &fam, &m, &res, 3, Duration::from_secs(ctx.tier.pick(300, 600)));
         }
     }
 }
